@@ -150,9 +150,7 @@ structure FSt where
 
 /-- the (uncompressed) bytes of fragment block `idx` -/
 def FSt.fragData (F : FSt) (idx : Nat) : Option Bytes :=
-  match (match F.opn with
-         | some fb => if fb.index = idx then some fb.data else none
-         | none => none) with
+  match openBytes F.opn idx with
   | some d => some d
   | none => (F.closed.find? (fun e => e.1 == idx)).map (·.2)
 
